@@ -197,3 +197,37 @@ ERROR_SPEC = {'code': ('always', 'code'), 'message': ('always', 'message'), 'dat
 
 REQUEST_SPEC = {'jsonrpc': ('const', '2.0'), 'method': ('always', 'method'), 'id': ('iff-not-none', 'id'),
                 'params': ('iff-truthy', 'params')}
+
+
+def ctor_precedence_problems(prog: Program, ci: ClassInfo) -> List[Tuple[str, str, int]]:
+    """`self.x = <param> … self.x` fallbacks in the constructor: the constructor argument must win whenever it is given
+    (is not None); the class-level default is only the fallback."""
+    init = prog.find_method(ci, '__init__')
+    out: List[Tuple[str, str, int]] = []
+    if init is None:
+        return out
+    params = {p.arg for p in init.params[1:]}
+    for st in walk_own(init.node):
+        if not (isinstance(st, ast.Assign) and len(st.targets) == 1 and isinstance(st.targets[0], ast.Attribute)
+                and dotted(st.targets[0].value) == 'self'):
+            continue
+        attr = 'self.' + st.targets[0].attr
+        v = st.value
+        names = {x.id for x in ast.walk(v) if isinstance(x, ast.Name)}
+        ps = sorted(names & params)
+        if not ps or attr not in {dotted(x) for x in ast.walk(v) if isinstance(x, ast.Attribute)}:
+            continue
+        p = ps[0]
+        ok = False
+        if isinstance(v, ast.IfExp):
+            ck = classify_cond(prog, init, v.test)
+            if ck.kind == 'is-none' and ck.subject == p:
+                given, absent = (v.body, v.orelse) if ck.negated else (v.orelse, v.body)
+                ok = dotted(given) == p and dotted(absent) == attr
+        elif isinstance(v, ast.BoolOp) and isinstance(v.op, ast.Or) and [dotted(x) for x in v.values] == [p, attr]:
+            ok = True     # precedence is right; the truthiness of the protocol scalar is SENT-TRUTH's business
+        if not ok:
+            out.append((f'{attr} does not give precedence to the constructor argument {p}',
+                        f'`{norm(st)}`: an explicitly given `{p}` must be stored (the class-level value is only the fallback when `{p}` is None); '
+                        f'here a typed error raised with its own code/message reaches the caller with the class defaults instead', st.lineno))
+    return out
